@@ -139,6 +139,12 @@ func cmdCheck(argv []string) int {
 		}
 		extraReps = sr
 	}
+	if (*prop == "C02" || *prop == "C03" || *prop == "C11" || *prop == "C01") && *only == "" {
+		extraReps = append(extraReps, bindCheck(l, *prop, "/x/mhub2/keeper", "ExternalEventProcessor", "ExternalEventProcessor"))
+	}
+	if *prop == "C18" && *only == "" {
+		extraReps = append(extraReps, bindCheck(l, *prop, "/x/oracle/keeper", "AttestationHandler", "AttestationHandler"))
+	}
 	if *prop == "C15" && *only == "" {
 		extraReps = append(extraReps, genesisCoverage(l, *prop)...)
 	}
